@@ -130,6 +130,11 @@ def _val(x):
         return x.number * Decimal(10) ** x.prefix.value
     if isinstance(x, (int, float)):
         return Decimal(str(x))
+    if isinstance(x, str):
+        try:
+            return Decimal(x)
+        except Exception:
+            return None
     return None
 
 
@@ -195,8 +200,11 @@ def _model(pdk, table, idx, sized, mult):
         kw["w"] = 3 * h.prefix.µ
     if sized in (1, 3) and "l" in fields:
         kw["l"] = 2 * h.prefix.µ
+    def mval(v):
+        # (the capacitor parameter class declares its multiplier as a string)
+        return str(v) if "str" in str(prim.Params.__params__["mult"].dtype) else v
     if mult and "mult" in fields:
-        kw["mult"] = 3
+        kw["mult"] = mval(3)
     m = h.Module(name="T")
     ports = {p: m.add(h.Port(name=p)) for p in prim.ports}
     try:
@@ -235,7 +243,7 @@ def _model(pdk, table, idx, sized, mult):
     # ... and different parameters a different one: the same model again, later in the same process, with another multiplier / width
     kw3 = dict(kw)
     if "mult" in fields:
-        kw3["mult"] = (kw.get("mult") or 1) + 5
+        kw3["mult"] = mval(int(kw.get("mult") or 1) + 5)
     elif "w" in fields:
         kw3["w"] = 7 * h.prefix.µ
     else:
